@@ -215,9 +215,19 @@ func callSite(skip int) string {
 
 // enter is called by a process at a hooked op: publish, yield, and return once chosen.
 // Returns nil in pass-through mode.
+// DelayHook, if set, is called before every hooked operation in transparent mode
+// (engine B: real processes with injected delays at the same hook points).
+var DelayHook func(kind, path string)
+
 func enter(kind, path, dst string, skip int) *Op {
 	s := Active
-	if s == nil || s.cur == nil || s.inMon {
+	if s == nil {
+		if DelayHook != nil {
+			DelayHook(kind, path)
+		}
+		return nil
+	}
+	if s.cur == nil || s.inMon {
 		return nil
 	}
 	p := s.cur
